@@ -222,6 +222,9 @@ func (b *simBroker) serve() {
 		if err != nil {
 			return
 		}
+		if tc, ok := conn.(*net.TCPConn); ok {
+			_ = tc.SetLinger(0)
+		}
 		b.mu.Lock()
 		b.cons[conn] = true
 		b.mu.Unlock()
